@@ -147,6 +147,9 @@ func c11Apply(m object.Map, r *gt.Map, op c11Op, step int) (object.Map, *gt.Map,
 		if !ok {
 			return m, r, true, "Rest did not return a map"
 		}
+		if msg := c11PartVsWhole(res, m, len(r.P)-1, len(r.P)); msg != "" {
+			return m, r, true, "Rest: " + msg
+		}
 		return res, &gt.Map{P: append([]gt.KV{}, r.P[1:]...)}, true, ""
 	case "range":
 		lo, hi := op.A, op.B
@@ -160,9 +163,27 @@ func c11Apply(m object.Map, r *gt.Map, op c11Op, step int) (object.Map, *gt.Map,
 		if !ok {
 			return m, r, true, fmt.Sprintf("Range(%d,%d) did not return a map", lo, hi)
 		}
+		if msg := c11PartVsWhole(res, m, hi-lo, len(r.P)); msg != "" {
+			return m, r, true, fmt.Sprintf("Range(%d,%d): %s", lo, hi, msg)
+		}
 		return res, &gt.Map{P: append([]gt.KV{}, r.P[lo:hi]...)}, true, ""
 	}
 	return m, r, false, "unknown op"
+}
+
+// c11PartVsWhole: a part of a map with fewer pairs is another map (Equals and Cmp see it, both ways round, also one level down).
+func c11PartVsWhole(part, whole object.Map, nPart, nWhole int) string {
+	if nPart == nWhole {
+		return ""
+	}
+	if object.Equals(part, whole) || object.Equals(whole, part) || object.Cmp(part, whole) == 0 || object.Cmp(whole, part) == 0 {
+		return fmt.Sprintf("a part with %d of the %d pairs compares equal to the whole map: %s vs %s", nPart, nWhole, part.Inspect(), whole.Inspect())
+	}
+	a, b := object.NewArray([]object.Object{part}), object.NewArray([]object.Object{whole})
+	if object.Equals(a, b) || object.Cmp(a, b) == 0 {
+		return fmt.Sprintf("[part] compares equal to [whole] for a part with %d of the %d pairs", nPart, nWhole)
+	}
+	return ""
 }
 
 // c11Observe compares every observation of a real map with the reference.
